@@ -43,7 +43,7 @@ def _wait_or_wedge(self):
 def cut_then_close(hb: bytes, body: bytes, j: int, selected: bool, local: bool, linktest_running: bool) -> bool:
     """
     pre: len(hb) == 10 and hb[5] <= 9 and hb[5] != 8
-    pre: len(body) <= 2
+    pre: len(body) <= 4
     pre: 0 <= j <= 14 + len(body)
     post: _
     """
@@ -134,10 +134,11 @@ def real_threads():
 
 OBLIGATIONS = [
     dict(name="cut_then_close", fn="cut_then_close", timeout=900,
-         parts=["j == %d" % j for j in range(16)],
+         parts={"quick": ["j == %d and len(body) <= 2" % j for j in range(16)],
+                "thorough": ["j == %d" % j for j in range(18)]},
          functions=["Protocol._on_connection_data_received", "HsmsProtocol._process_received_data/_on_disconnecting/_on_disconnected/"
                     "_on_connected/send_separate_req", "Protocol.send_message", "BlockSendInfo.wait", "ByteQueue"],
-         bounds="arbitrary frame header, body <= 2 bytes, cut at every offset j of the frame (0 = between frames), NOT_SELECTED / "
+         bounds="arbitrary frame header, body <= 2 (thorough <= 4) bytes, cut at every offset j of the frame (0 = between frames), NOT_SELECTED / "
                 "SELECTED, linktest timer idle or in the middle of its callback, then the close sequence of the connection, then a new connection with a Select.req",
          outside="TcpServerConnection/TcpClientConnection enable()/disable() stop-flag handshakes and TcpConnection.disconnect busy "
                  "waits (spin protocols around real sockets/select/sleep: not encodable, NOT claimed)"),
